@@ -9,6 +9,7 @@ import (
 	"errors"
 	"fmt"
 	"io/fs"
+	"math"
 	"os"
 	"path"
 	"path/filepath"
@@ -180,6 +181,8 @@ func processFile(filePath string, ctxt *processors.Context, checkOnly bool) erro
 
 	scanner := bufio.NewScanner(parsedBytes)
 	scanner.Split(bufio.ScanLines)
+	// lines can be longer than the scanner's default limit of 64 KiB
+	scanner.Buffer(nil, math.MaxInt)
 	lines := []string{}
 
 	indent := 0
